@@ -455,6 +455,8 @@ pub enum StoreValidateError {
     #[error("imports.lock is out-of-date with respect to configuration")]
     #[diagnostic(help("run `cargo vet` without --locked to update imports"))]
     ImportsLockOutdated,
+    #[error("the criteria table in audits.toml is invalid: {message}")]
+    InvalidCriteriaTable { message: String },
 }
 
 #[derive(Debug, Error, Diagnostic)]
@@ -743,6 +745,11 @@ pub enum FetchAuditError {
         url: String,
         #[source]
         error: url::ParseError,
+    },
+    #[error("{import_name}'s criteria table is invalid: {message}")]
+    InvalidCriteriaTable {
+        import_name: ImportName,
+        message: String,
     },
     #[error("error when aggregating multiple sources for {import_name}")]
     #[diagnostic(help("all sources for mapped custom criteria must have identical descriptions"))]
